@@ -18,6 +18,7 @@ import NV.Common.Proto
 import NV.C03.Spec
 import NV.C03.Model
 import NV.C03.Frontend
+import NV.C03.HashMap
 
 namespace NV.C03
 
@@ -266,7 +267,76 @@ def modelRun (q : Quirks) (P : Prog Float) (i : Nat) : String :=
 def specRun (P : Prog Float) (i : Nat) : String :=
   renderRes (runFn (specSem floatOps) P FUEL s!"t{i}")
 
+/-! ## maptrace: the hash-table model against real mapping_t tables (harness command `maptrace`) -/
+
+/-- svalue_to_int / node_hash for an integer key: `(int) (number >> 4)`, then masked with table_size -/
+def intHash (k : Int) : Nat := ((k / (4096 / (NV.Gen.C03.mapHashOf4096 : Int))) % 4294967296).toNat
+
+def fillPct : Nat := NV.Gen.C03.mapFillPercent
+
+def mapBits0 : Nat := Nat.log2 NV.Gen.C03.mapHashTableSize
+
+/-- allocate_mapping (n): table size -/
+def allocBits (n : Nat) : Nat := if n > NV.Gen.C03.mapHashTableSize then Nat.log2 n + 1 else mapBits0
+
+def dumpTbl (tok : String) (m : HT.Tbl Int Int) : String :=
+  let buckets := (List.range (2 ^ m.bits)).filterMap (fun i =>
+    match m.tbl i with
+    | [] => none
+    | c => some s!" {i}:[{",".intercalate (c.map (fun e => toString e.1))}]")
+  s!"T {tok} size={2 ^ m.bits} unfilled={m.unfilled} count={m.count}{String.join buckets}"
+
+def runMapTrace (toks : List String) : List String :=
+  let step := fun (st : HT.Tbl Int Int × HT.Tbl Int Int × List String) (tok : String) =>
+    let (a, b, out) := st
+    let isB := tok.startsWith "b" && tok != "abs"
+    let cur := if isB then b else a
+    let put := fun (m : HT.Tbl Int Int) => if isB then (a, m, dumpTbl tok m :: out) else (m, b, dumpTbl tok m :: out)
+    if tok == "abs" then
+      let a' := if b.count = 0 then a else HT.merge intHash fillPct a (HT.walk b)
+      (a', b, dumpTbl tok a' :: out)
+    else if tok == "plus" then (a, b, dumpTbl tok (HT.addMapping intHash fillPct a b) :: out)
+    else
+      match (tok.drop 1).toString.splitOn ":" with
+      | ["i", k, v] =>
+        match k.toInt?, v.toInt? with
+        | some k, some v => put (HT.insert intHash fillPct cur k v)
+        | _, _ => (a, b, s!"T {tok} !badtoken" :: out)
+      | ["d", k] =>
+        match k.toInt? with
+        | some k => put (HT.delete intHash cur k)
+        | none => (a, b, s!"T {tok} !badtoken" :: out)
+      | ["n", n] =>
+        match n.toNat? with
+        | some n => put (HT.empty (allocBits n) fillPct)
+        | none => (a, b, s!"T {tok} !badtoken" :: out)
+      | _ => (a, b, s!"T {tok} !badtoken" :: out)
+  let e : HT.Tbl Int Int := HT.empty mapBits0 fillPct
+  (toks.foldl step (e, e, [])).2.2.reverse
+
+/-- oracle for a table dump: every key sits in the bucket its hash selects, no key twice, count = number of nodes -/
+def judgeDump (line : String) : Option String :=
+  match toks line with
+  | "T" :: tok :: rest =>
+    let size := (rest.findSome? (fun t => if t.startsWith "size=" then (t.drop 5).toString.toNat? else none)).getD 0
+    let count := (rest.findSome? (fun t => if t.startsWith "count=" then (t.drop 6).toString.toNat? else none)).getD 0
+    let buckets := rest.filterMap (fun t =>
+      match t.splitOn ":[" with
+      | [i, ks] => some (i.toNat?.getD 0, ((ks.dropEnd 1).toString.splitOn ",").filterMap String.toInt?)
+      | _ => none)
+    let keys := buckets.flatMap (·.2)
+    let misplaced := buckets.filter (fun (i, ks) => ks.any (fun k => intHash k % size != i))
+    if size == 0 then (if rest.any (· == "!err") then none else some s!"bad maptrace-unreadable {tok}")
+    else if !misplaced.isEmpty then some s!"bad maptrace-bucket {tok} a key is linked into bucket {(misplaced.headD (0, [])).1} which its hash does not select"
+    else if keys.length != count then some s!"bad maptrace-count {tok} count={count} nodes={keys.length}"
+    else if keys.eraseDups.length != keys.length then some s!"bad maptrace-duplicate {tok}"
+    else none
+  | _ => none
+
 def runModel (lines : List String) : List String :=
+  match lines.find? (fun l => l.startsWith "maptrace ") with
+  | some l => runMapTrace (toks (l.drop 9).toString)
+  | none =>
   let p := parseCase lines
   match p.prog with
   | none => p.bad
@@ -284,6 +354,12 @@ def clip (s : String) : String := if s.length > 160 then (s.take 160).toString +
 
 def runJudge (body : List String) : List String :=
   let (input, impl) := splitJudge body
+  if input.any (fun l => l.startsWith "maptrace ") then
+    let crash := impl.filter (fun l => l.startsWith "crash" || l.startsWith "sanitizer")
+    match crash.map (fun l => s!"bad impl-crash {clip l}") ++ impl.filterMap judgeDump with
+    | [] => ["ok"]
+    | vs => vs
+  else
   let p := parseCase input
   match p.prog with
   | none => ["bad unparsable-case"]
